@@ -243,3 +243,14 @@ def _share_live_list_maintenance(ctx):
     # (poll / waker protocol shared with C04; `wakers_lock` is held by report_stream_dropped during every removal)
     importlib.import_module("props.C04").check_poll_protocol(util.PrefixedCtx(ctx, "R17.8"))
     ctx.floor("R17.8", 8)
+    # R17.9 removing one listener (cancel-by-name of its executor) ends THAT listener: executors are registered under the id of the stream they consume (shared with
+    # C12 R12.10); and on the log channel every send wakes every live listener by its id read from the live list (C04's wake-site rules: a wake indexed by list position
+    # goes stale as soon as a lower id was removed and the list compacted)
+    importlib.import_module("props.C12").check_executor_stream_pairing(ctx, "R17.9")
+    C04m = importlib.import_module("props.C04")
+    sub4 = util.fresh_ctx(ctx, "C04")
+    util.guarded(ctx, C04m.check, sub4)
+    for o in sub4.obs:
+        if o["rule"] in ("R04.3", "R04.5", "R04.6") and "mmap_log" in o["key"]:
+            ctx.ob("R17.9", o["key"], o["ok"], o["site"], o["detail"], o["nontrivial"])
+    ctx.floor("R17.9", 14)
